@@ -4,7 +4,7 @@ use crate::common::*;
 
 pub fn run(ctx: &Ctx) -> Outcome {
     let mut out = Outcome::default();
-    let d = ctx.tier.pick(6, 8);
+    let d = ctx.tier.pick(8, 10);
     run_and_report(ctx, &rx(ctx.tier, 2, vec![MSS], d), &mut out);
     run_and_report(ctx, &rx(ctx.tier, 4, vec![MSS, 1], d), &mut out);
     if ctx.tier == Tier::Thorough {
@@ -12,7 +12,7 @@ pub fn run(ctx: &Ctx) -> Outcome {
     }
     run_and_report(ctx, &rx_rude(ctx.tier, d), &mut out);
     run_and_report(ctx, &rx_halfclosed(ctx.tier, d), &mut out);
-    for drv in fsm_all(ctx.tier, ctx.tier.pick(4, 6)).into_iter().filter(|d| d.name.contains("finwait") || d.name.contains("inflight")) {
+    for drv in fsm_all(ctx.tier, ctx.tier.pick(5, 7)).into_iter().filter(|d| d.name.contains("finwait") || d.name.contains("inflight")) {
         run_and_report(ctx, &drv, &mut out);
     }
     out.rule = "C04: explicit-state BFS over arrival orders x payload sizes x reader behaviour on one real connection; states = distinct fingerprints (full connection dump + harness + monitor state)".into();
